@@ -143,6 +143,9 @@ int write_srec(Memory *memory, FILE *out, int srec_size)
         len = -1;
       }
 
+      // Nothing was ever written to this page, skip to its last address.
+      if (!memory->in_use(n)) { n |= memory->get_page_size() - 1; }
+
       continue;
     }
 
